@@ -73,7 +73,11 @@ Relations(e, src, kind, o, so) ==
          <<"C08.negate_thresholds", thrOK(RNegQ)>>,
          <<"C08.negate_eer", (TieFree(o) /\ haveEER) =>
               /\ Close(e.eer.e6, src.eer.e6, 2)
-              /\ Close(e.eer.t4, -src.eer.t4, 5)>>}
+              /\ Close(e.eer.t4, -src.eer.t4, 5)>>,
+         (* with ties the mirrored search may stop at another point of the same plateau, but the   *)
+         (* EER VALUE of the mirrored object is the same (seed C08-12: one of the two mirrored       *)
+         (* perfect-separation shortcuts edited, classes touching in one score)                     *)
+         <<"C08.negate_eer_value_with_ties", haveEER => Close(e.eer.e6, src.eer.e6, 2)>>}
        [] kind = "affine" -> {
          <<"C08.affine_cm", sameGrid /\ \A i \in 1..n : Cells(e.cm[i]) = Cells(src.cm[i])>>,
          <<"C08.affine_rates", sameGrid /\ \A m \in Metrics : \A i \in 1..n :
